@@ -541,7 +541,17 @@ def _same_symbol(interp, a, b):
     return False
 
 
-def constructor_table(ctx, rule, class_qualname, max_tokens, mode="wellformed", result_rule=None):
+# digits before and after the point of the n-th number of a description (constructor tables with digits=True): the
+# most digits before the point, the most digits after it and the last number are three different numbers
+DIGIT_SHAPES = [(2, 1), (4, 0), (1, 3), (3, 2), (1, 0), (2, 2), (1, 1)]
+
+
+def _digit_shape(symbol):
+    index = int("".join(c for c in symbol.name if c.isdigit()) or 1) - 1
+    return DIGIT_SHAPES[index % len(DIGIT_SHAPES)]
+
+
+def constructor_table(ctx, rule, class_qualname, max_tokens, mode="wellformed", result_rule=None, digits=False):
     """
     mode "wellformed": compare accepted items / limits on well-formed, non-overlapping sequences (C01).
     mode "errors": every sequence must end in acceptance or InterfaceError (C10).
@@ -701,6 +711,13 @@ def constructor_table(ctx, rule, class_qualname, max_tokens, mode="wellformed", 
         limits_ok = _same_symbol(interp, actual_lower, expected_lower) and _same_symbol(interp, actual_upper, expected_upper)
         if not limits_ok:
             return (key, ("limits", _show(actual_lower), _show(actual_upper)), ("limits", _show(expected_lower), _show(expected_upper)))
+        if digits and decimal:
+            # C19: total digits and digits after the point are those of ALL numbers of the rule
+            shapes = [_digit_shape(symbol) for kind, symbol in tokens if kind == "NUM"]
+            after = max(shape[1] for shape in shapes)
+            expected_digits = ("digits", max(shape[0] for shape in shapes) + after, after)
+            actual_digits = ("digits", self_obj.attrs.get("_scale", "missing"), self_obj.attrs.get("_precision", "missing"))
+            return (key + " shapes%s" % shapes, actual_digits, expected_digits)
         return (key, "ok", "ok")
 
     if mode == "refusal":
@@ -715,8 +732,9 @@ def constructor_table(ctx, rule, class_qualname, max_tokens, mode="wellformed", 
 def _decimal_methods(symbol):
     @stub
     def as_tuple(interp, args, kwargs):
-        # digits/exponent only feed precision and scale, which are not part of C01's decision
-        return (0, (Opaque("digit"),), 0)
+        # digits/exponent only feed precision and scale (C19 compares them, see DIGIT_SHAPES)
+        before, after = _digit_shape(symbol)
+        return (0, (Opaque("digit"),) * (before + after), -after)
 
     @stub
     def copy_negate(interp, args, kwargs):
